@@ -240,6 +240,21 @@ struct JSONUtils {
                 }
 
                 default: {
+                    if (SizeT32(ch) < 0x20U) {
+                        // The remaining control characters have no short form: \u00XX (RFC 8259).
+                        const SizeT32 low = (SizeT32(ch) & 0xFU);
+
+                        stream.Write((content + offset2), (offset - offset2));
+                        offset2 = offset;
+                        ++offset2;
+
+                        stream += JSONotation::BSlashChar;
+                        stream += JSONotation::U_Char;
+                        stream += DigitUtils::DigitChar::Zero;
+                        stream += DigitUtils::DigitChar::Zero;
+                        stream += Char_T(DigitUtils::DigitChar::Zero + (SizeT32(ch) >> 4U));
+                        stream += Char_T((low < 10U) ? (DigitUtils::DigitChar::Zero + low) : (DigitUtils::DigitChar::A + (low - 10U)));
+                    }
                 }
             }
 
